@@ -23,6 +23,7 @@ def gen_chain(rng):
         counter[0] += 1
         return ("T", counter[0])
     chain = []
+    attr_reads = []
     for k in range(n):
         defs = sorted(rng.sample([1, 2, 3, 4], rng.randint(0, 3)))
         blocks = rng.sample([5, 6, 7, 8], rng.randint(0, 3))
@@ -65,8 +66,42 @@ def gen_chain(rng):
         for x in list(members):
             if rng.random() < 0.5:
                 members[x].insert(rng.randint(0, len(members[x])), ("A", rng.choice("snpl"), rng.choice([20, 21, 22, 23])))
+                attr_reads.append((k, x, members[x]))
         members["attrs"] = attrs
         chain.append(members)
+    # most calls should reach a member (a render that stops at the first missing member exercises little): a call that cannot
+    # resolve is, five times out of six, re-aimed at a namespace through which it does, or replaced by text
+    def resolvable(k, w, x):
+        def has(j):
+            return x == 0 or x in chain[j]
+        if w == "s":
+            return any(has(j) for j in range(n))
+        if w == "l":
+            return any(has(j) for j in range(k, n))
+        if w == "p":
+            return any(has(j) for j in range(k + 1, n))
+        return k >= 1 and any(has(j) for j in range(k - 1, n))
+    def attr_resolvable(k, w, a):
+        def has(j):
+            return a in chain[j]["attrs"]
+        if w == "s":
+            return any(has(j) for j in range(n))
+        if w == "l":
+            return any(has(j) for j in range(k, n))
+        if w == "p":
+            return any(has(j) for j in range(k + 1, n))
+        return k >= 1 and any(has(j) for j in range(k - 1, n))
+    for k, members in enumerate(chain):
+        for x in [x_ for x_ in members if isinstance(x_, int)]:
+            for idx, it in enumerate(members[x]):
+                if it[0] == "A" and not attr_resolvable(k, it[1], it[2]) and rng.random() < 0.93:
+                    opts = [(w, a) for w in "snpl" for a in (20, 21, 22, 23) if attr_resolvable(k, w, a)]
+                    members[x][idx] = ("A",) + rng.choice(opts) if opts else text()
+                    continue
+                if it[0] == "C" and not resolvable(k, it[1], it[2]) and rng.random() < 0.93:
+                    # (a body or a block reached through another namespace than the one written could call itself)
+                    ws = [w for w in "snpl" if resolvable(k, w, it[2])] if 1 <= it[2] <= 4 else []
+                    members[x][idx] = ("C", rng.choice(ws), it[2]) if ws else text()
     return chain
 
 
@@ -119,6 +154,7 @@ def run(ctx):
     disagreements = []
     n = 500 if tier == "quick" else 60000
     req, got = [], []
+    outcomes, ntoks = {}, []
     for i in range(n):
         chain = gen_chain(rng)
         dynamic = i % 3 == 0
@@ -140,7 +176,8 @@ def run(ctx):
             except AttributeError:
                 raise
             return "a%d:%s" % (v[0], name[1:])
-        c = Context(buf, attr_mark=attr_mark, **{"parent_uri_%d" % k: (None if k == cut else "/t%d.html" % (k + 1)) for k in range(len(chain))})
+        ckw = {"parent_uri_%d" % k: (None if k == cut else "/t%d.html" % (k + 1)) for k in range(len(chain))}
+        c = Context(buf, attr_mark=attr_mark, **ckw)
         if cut is not None:
             chain = chain[: cut + 1]
         try:
@@ -151,13 +188,38 @@ def run(ctx):
         except RecursionError:
             continue
         toks = buf.getvalue().split()
+        outcomes[res] = outcomes.get(res, 0) + 1
+        ntoks.append(len(toks))
         line = res + "|" + " ".join(toks + (["x"] if res == "err" else []))
         # the property's own reading, independent of the model: rendering runs the body of the base-most ancestor first
         if toks and toks[0] != "e%d:0" % (len(chain) - 1):
             ctx.violation(dict(case, first_marker=toks[0], expected="e%d:0" % (len(chain) - 1)), "rendering must start with the body of the base-most ancestor", tags=["c06.base-body-first"])
+        # the same chain rendered from inside the body of a template that belongs to another chain (whose base declares members of
+        # the same names) is still a chain of its own: it must write exactly what it writes alone
+        if i % 2 == 0:
+            lk.put_string("/outer_base.html", "OB[ " + "".join('<%%block name="b%d">ob%d </%%block>' % (b, b) for b in (5, 6, 7, 8))
+                          + "".join('<%%def name="m%d()">obm%d </%%def>' % (d_, d_) for d_ in (1, 2, 3, 4)) + "${next.body()}]OB ")
+            lk.put_string("/outer.html", '<%inherit file="/outer_base.html"/>OP[ <%include file="/t0.html"/>]OP ')
+            buf2 = util.FastEncodingBuffer()
+            try:
+                lk.get_template("/outer.html").render_context(Context(buf2, attr_mark=attr_mark, **ckw))
+                toks2 = buf2.getvalue().split()
+            except Exception as e:  # noqa
+                toks2 = buf2.getvalue().split() + ["raised", type(e).__name__]
+            want2 = ["OB[", "ob5", "ob6", "ob7", "ob8", "OP["] + toks + (["]OP", "]OB"] if res == "ok" else ["raised"])
+            if res != "ok" and "raised" in toks2:
+                toks2 = toks2[:toks2.index("raised") + 1]      # a chain that fails alone fails at the same point, after the same output
+            ctx.evaluations += 1
+            if toks2 != want2:
+                ctx.violation(dict(case, outer_base=lk.get_template("/outer_base.html").source, outer=lk.get_template("/outer.html").source,
+                                   alone=" ".join(toks), inside_the_other_chain=" ".join(toks2)),
+                              "a chain rendered through <%include> from a template of another chain must write what it writes alone (named blocks once, at their position)",
+                              tags=["c06.chain-through-include"])
         req.append(chain_tok(chain))
         got.append((case, line))
     ctx.generators["chains"] = {"cases": len(req)}
+    ctx.dist["render_outcomes"] = outcomes
+    ctx.dist["markers_written_mean"] = round(sum(ntoks) / max(1, len(ntoks)), 1)
 
     # ---- fixed oracle cases -----------------------------------------------------------------------------------
     def render(files, main="/c.html", **kw):
